@@ -58,4 +58,47 @@ theorem draining_times (c : Cfg) : ∀ (dts : List Nat) (u : U), u.phase = .drai
       rw [done_time c _ hf.1 ds]
       exact hf
 
+
+theorem done_time_full (c : Cfg) (u : U) (h : u.phase = .done) (dts : List Nat) : run c u (dts.map .time) = (u, []) := by
+  induction dts with
+  | nil => rfl
+  | cons d ds ih =>
+    simp only [List.map_cons, run, step, advance, nextDue, h, elapse, ih, List.append_nil]
+
+/-- the retry delay: with nothing but time passing, the delay timer alone decides -/
+theorem delay_times (c : Cfg) : ∀ (dts : List Nat) (u : U), u.phase = .delay → u.ds.paused = false →
+    (dts.sum < u.ds.remaining → (run c u (dts.map .time)).1.phase = .delay ∧
+        (run c u (dts.map .time)).1.ds.remaining = u.ds.remaining - dts.sum ∧ (run c u (dts.map .time)).1.ds.paused = false ∧
+        (run c u (dts.map .time)).2 = []) ∧
+    (dts ≠ [] → u.ds.remaining ≤ dts.sum → (run c u (dts.map .time)).1.phase = .done ∧ (run c u (dts.map .time)).2 = []) := by
+  intro dts
+  induction dts with
+  | nil =>
+    intro u hp hl
+    exact ⟨fun _ => by simp [run, hp, hl], fun h => absurd rfl h⟩
+  | cons d ds ih =>
+    intro u hp hl
+    simp only [List.map_cons, run, step, List.sum_cons]
+    by_cases hd : d < u.ds.remaining
+    · have hadv : advance c u d = (elapse u d, []) := by simp [advance, nextDue, hp, Timer.due, hl, hd]
+      rw [hadv]
+      have e1 : (elapse u d).phase = .delay := by simp [elapse, hp]
+      have e2 : (elapse u d).ds.paused = false := by simp [elapse, hp, Timer.tick, hl]
+      have e3 : (elapse u d).ds.remaining = u.ds.remaining - d := by simp [elapse, hp, Timer.tick, hl]
+      obtain ⟨i1, i2⟩ := ih (elapse u d) e1 e2
+      refine ⟨fun h => ?_, fun _ h => ?_⟩
+      · obtain ⟨a, b, c', d'⟩ := i1 (by rw [e3]; omega)
+        exact ⟨a, by rw [b, e3]; omega, c', by simp [d']⟩
+      · have hne : ds ≠ [] := by
+          intro hn; subst hn; simp at h; omega
+        obtain ⟨a, b⟩ := i2 hne (by rw [e3]; omega)
+        exact ⟨a, by simp [b]⟩
+    · have hadv : advance c u d = fire c (elapse u u.ds.remaining) := by simp [advance, nextDue, hp, Timer.due, hl, hd]
+      rw [hadv]
+      have hf : (fire c (elapse u u.ds.remaining)).1.phase = .done ∧ (fire c (elapse u u.ds.remaining)).2 = [] := by
+        simp [fire, elapse, hp]
+      refine ⟨fun h => by omega, fun _ _ => ?_⟩
+      rw [done_time_full c _ hf.1 ds]
+      exact ⟨hf.1, by simp [hf.2]⟩
+
 end NextestModel.Unit
